@@ -9,6 +9,7 @@ import (
 	"os"
 	"runtime"
 	"strconv"
+	"strings"
 	"testing"
 	"testing/synctest"
 	"time"
@@ -337,6 +338,37 @@ func TestSim(t *testing.T) {
 	seed := int64(envInt("VERIF_SEED", 1))
 	id := 0
 	stats := map[string]int{}
+	// Real-time watchdog, outside every bubble. Virtual time makes a run take milliseconds; a goroutine that
+	// waits for a sync.Mutex is not "durably blocked" for synctest, so a client that leaks a lock leaves the
+	// bubble waiting for ever instead of reporting a deadlock. No recorded event for 60 s of real time while
+	// client goroutines sit in Mutex.Lock is reported as what it is.
+	go func() {
+		last := int64(-1)
+		for {
+			time.Sleep(60 * time.Second)
+			cur := progress.Load()
+			if cur != last {
+				last = cur
+				continue
+			}
+			buf := make([]byte, 1<<20)
+			buf = buf[:runtime.Stack(buf, true)]
+			var stuck []string
+			for _, g := range strings.Split(string(buf), "\n\n") {
+				if strings.Contains(g, "sync.(*Mutex).Lock") && (strings.Contains(g, "nclient4.") || strings.Contains(g, "nclient6.")) {
+					stuck = append(stuck, g)
+				}
+			}
+			w.Flush()
+			if len(stuck) > 0 {
+				fmt.Printf("deadlock: no event for 60 s of real time in sim %d; %d client goroutines wait for a mutex that is never released:\n%s\n",
+					id, len(stuck), strings.Join(stuck, "\n\n"))
+				os.Exit(3)
+			}
+			fmt.Printf("harness stuck: no event for 60 s of real time in sim %d and no client goroutine waits for a mutex\n%s\n", id, buf)
+			os.Exit(4)
+		}
+	}()
 	runOne := func(cfg Cfg, tag string, body func(s *Sim)) {
 		id++
 		myid := id
